@@ -16,7 +16,7 @@
 
 use std::collections::{BTreeMap, BTreeSet};
 
-use aranya_fast_channels::{AfcState, AranyaState, Client, Error, LocalChannelId};
+use aranya_fast_channels::{AfcState, AranyaState, Client, LocalChannelId};
 use serde_json::{Value, json};
 use vcommon::{Cli, Evidence, Rng, Tier, Violation};
 
@@ -523,14 +523,26 @@ pub fn run(cli: &Cli) -> i32 {
         "real": ["Client::seal/seal_in_place/open/open_in_place", "header.rs DataHeader", "shm::ReadState/WriteState on POSIX shared memory (receiver, half of the runs)", "memory::State (sender; receiver in the other half)", "aranya-crypto AFC keys: UniSecrets / UniSealKey / UniOpenKey derivation, AES-256-GCM"],
         "stub": ["transport between the two devices (in-process byte vectors with injected faults)"],
     }));
-    if let Some(r) = res.first() {
+    for (i, r) in res.iter().take(2).enumerate() {
         let mut j = run_json(&r.run);
-        // keep the sample readable
+        // keep the sample readable: the seals, the first 6 deliveries and one of each other fault kind
         if let Some(a) = j["deliveries"].as_array_mut() {
-            a.truncate(12);
+            let mut kinds: BTreeSet<String> = BTreeSet::new();
+            let mut keep = Vec::new();
+            for (n, d) in a.iter().enumerate() {
+                let k = d["fault"]["kind"].as_str().unwrap_or("").to_string();
+                if n < 6 || kinds.insert(k) {
+                    keep.push(d.clone());
+                }
+            }
+            *a = keep;
         }
-        ev.samples.push(json!({"run": 0, "seed": format!("{:#x}", r.seed), "events_first_12_deliveries": j}));
+        ev.samples.push(json!({"run": i, "seed": format!("{:#x}", r.seed), "deliveries_in_run": r.run.deliveries.len(), "events_excerpt": j}));
     }
+    ev.set(
+        "anomalies",
+        json!({"count": 0, "note": "every open/open_in_place outcome is defined by the property; a panic is a violation, not an anomaly"}),
+    );
 
     let mut seen: BTreeSet<(String, String)> = BTreeSet::new();
     let mut violations = Vec::new();
